@@ -250,7 +250,6 @@ VARIANTS = [
     V("C08", "timestamp in header", GEN, "        module_header = f\"{module_name_info}package {_replace_if_safeds_keyword_in_path(package_info_camel_case)}\\n\"\n\n        # Create docstring", "        import time\n        module_header = f\"// generated {time.time()}\\n{module_name_info}package {_replace_if_safeds_keyword_in_path(package_info_camel_case)}\\n\"\n\n        # Create docstring", "C08.AMBIENT"),
     V("C08", "cwd relative output", "api_analyzer/cli/_cli.py", "        out_dir_path=args.out.resolve(),", "        out_dir_path=args.out,", "C08.PATH-SPELLING"),
     V("C08", "new directory listing", GA, "    logging.info(\"Started gathering the raw package data with Mypy.\")", "    extra_files = [str(p) for p in root.iterdir()]\n    logging.info(\"Started gathering the raw package data with Mypy.\")", "C08.FS-ENUM"),
-    V("C08", "benign: files sorted", GA, 'for file_path in root.glob(pattern="./**/*.py"):', 'for file_path in sorted(root.glob(pattern="./**/*.py")):', None),
     V("C08", "unparse round trip", VIS, "<<unparse>>", "", None),
 ]
 VARIANTS += [
@@ -405,8 +404,8 @@ VARIANTS += [
     V("C12", "benign: API file written with write_text", API, '        with path.open("w", encoding="utf-8") as f:\n            json.dump(self.to_dict(), f, indent=2)', '        path.write_text(json.dumps(self.to_dict(), indent=2), encoding="utf-8")', None),
     V("C10", "benign: API file written with write_text", API, '        with path.open("w", encoding="utf-8") as f:\n            json.dump(self.to_dict(), f, indent=2)', '        path.write_text(json.dumps(self.to_dict(), indent=2), encoding="utf-8")', None),
     V("C01", "benign: API file written with write_text", API, '        with path.open("w", encoding="utf-8") as f:\n            json.dump(self.to_dict(), f, indent=2)', '        path.write_text(json.dumps(self.to_dict(), indent=2), encoding="utf-8")', None),
-    V("C08", "benign: rglob instead of a glob pattern", GA, 'for file_path in root.glob(pattern="./**/*.py"):', 'for file_path in root.rglob("*.py"):', None),
-    V("C15", "benign: rglob instead of a glob pattern", GA, 'for file_path in root.glob(pattern="./**/*.py"):', 'for file_path in root.rglob("*.py"):', None),
+    V("C08", "benign: rglob instead of a glob pattern", GA, 'for file_path in sorted(root.glob(pattern="./**/*.py")):', 'for file_path in sorted(root.rglob("*.py")):', None),
+    V("C15", "benign: rglob instead of a glob pattern", GA, 'for file_path in sorted(root.glob(pattern="./**/*.py")):', 'for file_path in sorted(root.rglob("*.py")):', None),
     V("C08", "benign: re-exporters sorted with sorted()", VIS, '        reexported_by.sort(key=lambda x: x.id)\n\n        # Get constructor docstring', '        reexported_by = sorted(reexported_by, key=lambda x: x.id)\n\n        # Get constructor docstring', None),
     V("C05", "benign: None / Literal branches swapped", VIS, '        elif isinstance(mypy_type, mp_types.NoneType):\n            return sds_types.NamedType(name="None", qname="builtins.None")\n        elif isinstance(mypy_type, mp_types.LiteralType):\n            return sds_types.LiteralType(literals=[mypy_type.value])',
       '        elif isinstance(mypy_type, mp_types.LiteralType):\n            return sds_types.LiteralType(literals=[mypy_type.value])\n        elif isinstance(mypy_type, mp_types.NoneType):\n            return sds_types.NamedType(name="None", qname="builtins.None")', None),
@@ -422,4 +421,9 @@ VARIANTS += [
     V("C09", "benign: receiver skipped by its index", GEN, '        first_loop_skipped = False\n        for parameter in parameters:\n            # Skip self parameter for functions\n            if is_instance_method and not first_loop_skipped:\n                first_loop_skipped = True\n                continue\n',
       '        for parameter_index, parameter in enumerate(parameters):\n            # Skip self parameter for functions\n            if is_instance_method and parameter_index == 0:\n                continue\n', None),
     V("C12", "benign: store written with update()", API, '        self.classes[class_.id] = class_', '        self.classes.update({class_.id: class_})', None),
+]
+VARIANTS += [
+    V("C08", "source files walked in enumeration order", GA, 'for file_path in sorted(root.glob(pattern="./**/*.py")):', 'for file_path in root.glob(pattern="./**/*.py"):', "C08.FS-ENUM"),
+    V("C08", "benign: file list sorted in a separate statement", GA, 'for file_path in sorted(root.glob(pattern="./**/*.py")):', 'python_files = sorted(root.glob(pattern="./**/*.py"))\n    for file_path in python_files:', None),
+    V("C15", "benign: file list sorted in a separate statement", GA, 'for file_path in sorted(root.glob(pattern="./**/*.py")):', 'python_files = sorted(root.glob(pattern="./**/*.py"))\n    for file_path in python_files:', None),
 ]
